@@ -216,7 +216,7 @@ def blend_samples(
 def _linear_blend(values: list[CellValue], weights: list = None):
     """Combine cell values by linear blending."""
 
-    values = [[v] if isinstance(v, (float, int)) else v for v in values]
+    values = [[v] if np.ndim(v) == 0 else v for v in values]
     S = max(len(v) for v in values)
     M = len(values)
 
